@@ -129,6 +129,10 @@ func (d *KeyDialect) mk(i int) interface{} {
 		}
 		return uint64(i) * 2
 	case "string":
+		if i%9 == 4 {
+			// characters the JSON encoder escapes (<, >, &) and a non-ASCII rune
+			return "k" + strconv.Itoa(i) + "<&>\u00e9"
+		}
 		return "k" + strconv.Itoa(i)
 	case "bytes":
 		// variable length, includes 0x00 and 0xff, prefix relationships
@@ -232,6 +236,9 @@ func (v *ValDialect) Val(i int) interface{} {
 	case "int":
 		return i
 	case "string":
+		if i%5 == 3 {
+			return "v<tag>&" + strconv.Itoa(i)
+		}
 		return "v" + strconv.Itoa(i)
 	case "struct":
 		return SVal{X: i, Y: "y" + strconv.Itoa(i%5)}
